@@ -8,40 +8,97 @@
    `Exact m` : the file is exactly the image of memory (save (mem m) = Some (disk m));
    `reload_equiv m` : re-opening the group yields the same observable list (identifier, status if sent, metadata,
    request body unless successful); `skeleton m` : identifiers and metadata on disk are those of memory.
-   The statement now holds in FULL: every history, every job, every server script, operations returning or raising;
-   no admissibility condition and no ghost hypothesis. *)
+   `WExact w` : several groups — every live group object is exact with respect to the file of its own name.
+   The statement holds for every history, every job, every server script, operations returning or raising, with one
+   exception (open finding get_results-status-change-not-written): JobGroup.get_results() may refresh the status of
+   an UNKNOWN job a second time through RemoteJob.get_results() and nothing writes it; `quiet` (ghost flag, raised by
+   get_results only — C19_flag_only_get_results) excludes exactly that. *)
 From PV Require Import Model.JobGroup Proofs.JobGroupP.
 Require Import List ZArith.
 Import ListNotations.
 
-Theorem C19_disk_matches_memory : forall sc ops,
+Theorem C19_disk_matches_memory_partial : forall sc ops, quiet (init sc) ops ->
   Exact (run cur (init sc) ops) /\ reload_equiv (run cur (init sc) ops).
-Proof. exact disk_matches_memory. Qed.
-Print Assumptions C19_disk_matches_memory.
+Proof. exact disk_matches_memory_partial. Qed.
+Print Assumptions C19_disk_matches_memory_partial.
+
+Theorem C19_disk_matches_memory_without_get_results : forall sc ops, Forall (fun o => o <> OGetResults) ops ->
+  Exact (run cur (init sc) ops) /\ reload_equiv (run cur (init sc) ops).
+Proof. exact disk_matches_memory_without_get_results. Qed.
+Print Assumptions C19_disk_matches_memory_without_get_results.
 
 Theorem C19_every_operation_preserves : forall m o m' out,
-  Forall good (mem m) -> Exact m -> step cur m o = (m', out) -> Forall good (mem m') /\ Exact m'.
+  Forall good (mem m) -> Exact m -> step cur m o = (m', out) ->
+  Forall good (mem m') /\ ((o = OGetResults -> udirty m' = false) -> Exact m').
 Proof. exact step_exact. Qed.
 Print Assumptions C19_every_operation_preserves.
 
-(* the hypotheses of the step theorem hold initially (and then forever, by the theorem itself) *)
+Theorem C19_every_operation_preserves_weakly : forall m o m' out, WInv m -> step cur m o = (m', out) -> WInv m'.
+Proof. exact step_weak. Qed.
+Print Assumptions C19_every_operation_preserves_weakly.
+
+Theorem C19_flag_only_get_results : forall m o m' out, Forall good (mem m) -> Exact m -> step cur m o = (m', out) ->
+  o <> OGetResults -> udirty m' = false.
+Proof. exact flag_only_get_results. Qed.
+Print Assumptions C19_flag_only_get_results.
+
+(* the hypotheses of the step theorem hold initially *)
 Theorem C19_initial_state : forall sc, Forall good (mem (init sc)) /\ Exact (init sc).
 Proof. exact init_good. Qed.
 Print Assumptions C19_initial_state.
 
-Theorem C19_accepted_ids_survive : forall sc ops, skeleton (run cur (init sc) ops).
+Theorem C19_accepted_ids_survive : forall sc ops,
+  skeleton (run cur (init sc) ops) /\ Exact (fst (step cur (run cur (init sc) ops) OReopen)).
 Proof. exact accepted_ids_survive. Qed.
 Print Assumptions C19_accepted_ids_survive.
 
-Theorem C19_request_same_after_reopen : forall sc ops,
+Theorem C19_request_same_after_reopen : forall sc ops, quiet (init sc) ops ->
   let m := run cur (init sc) ops in
   Forall2 (fun j j' => jid j' = jid j /\ (success (jst j) = false -> eff_body j' = eff_body j)) (mem m) (load cur (disk m)).
 Proof. exact request_same_after_reopen. Qed.
 Print Assumptions C19_request_same_after_reopen.
 
+(* counterexample to the full statement on the CURRENT code (open finding get_results-status-change-not-written) *)
+Theorem C19_disk_matches_memory_refuted_get_results :
+  exists ops sc, snd (step cur (run cur (init sc) (removelast ops)) (last ops OReopen)) = Returned /\
+                 ~ reload_equiv (run cur (init sc) ops).
+Proof. exact disk_matches_memory_refuted_get_results. Qed.
+Print Assumptions C19_disk_matches_memory_refuted_get_results.
+
+Theorem C19_hypotheses_satisfiable :
+  exists ops sc, quiet (init sc) ops /\ In OGetResults ops /\ length (mem (run cur (init sc) ops)) = 2%nat.
+Proof.
+  eexists _, _. split; [exact (proj1 hypotheses_satisfiable)|]. split; [|exact (proj2 hypotheses_satisfiable)].
+  simpl. tauto.
+Qed.
+Print Assumptions C19_hypotheses_satisfiable.
+
+(* several groups: a file store indexed by name *)
+Theorem C19_world_disk_matches_memory : forall ops sc, mquiet (winit sc) ops -> WExact (mrun cur (winit sc) ops).
+Proof. exact world_disk_matches_memory. Qed.
+Print Assumptions C19_world_disk_matches_memory.
+
+Theorem C19_world_operation_preserves : forall w o w' out,
+  WExact w -> mquiet_step w o -> mstep cur w o = (w', out) -> WExact w'.
+Proof. exact mstep_exact. Qed.
+Print Assumptions C19_world_operation_preserves.
+
+(* an operation about the name n neither reads nor writes anything stored under another name *)
+Theorem C19_other_names_untouched : forall w o w' out n n', mop_name o = Some n -> n <> n' -> mstep cur w o = (w', out) ->
+  sget n' (files w') = sget n' (files w) /\ sget n' (handles w') = sget n' (handles w).
+Proof. exact mstep_frame. Qed.
+Print Assumptions C19_other_names_untouched.
+
+(* re-opening by the same name returns what was written under that name (and writes nothing) *)
+Theorem C19_reopen_by_name : forall w n l w' out,
+  WExact w -> sget n (handles w) = Some l -> mstep cur w (MOpen n) = (w', out) ->
+  files w' = files w /\ exists l', sget n (handles w') = Some l' /\ map obs l' = map obs l.
+Proof. exact reopen_by_name. Qed.
+Print Assumptions C19_reopen_by_name.
+
 (* leaving the launch loop: one more write iff the image differs; memory, script and outcome untouched *)
 Theorem C19_write_on_exit : forall m o m' o', Forall good (mem m) -> finish cur (m, o) = (m', o') ->
-  mem m' = mem m /\ scr m' = scr m /\ o' = o /\ Exact m'.
+  mem m' = mem m /\ scr m' = scr m /\ o' = o /\ Exact m' /\ udirty m' = false.
 Proof. exact finish_exact. Qed.
 Print Assumptions C19_write_on_exit.
 
